@@ -29,6 +29,9 @@ func runOp(line string) (out string) {
 	if s, ok := xOp(toks); ok {
 		return s
 	}
+	if s, ok := kernOp(toks); ok {
+		return s
+	}
 	if s, ok := geomOp(toks); ok {
 		return s
 	}
